@@ -462,6 +462,10 @@ func configure(g *gen) {
 	for _, n := range []string{"Add", "AddNamed", "Any", "GET", "HEAD", "POST", "PUT", "PATCH", "TRACE", "OPTIONS", "DELETE", "CONNECT"} {
 		add(FnSpec{Recv: "Router", Func: n, Lean: "Router." + n, UseStructs: []string{"Route"}, Mutates: true, Extra: arExtra, Exts: arExts, Types: hfT})
 	}
+	// route.go `AttachTo`: the route is handed to the router's AddRoute (router and route as they come back)
+	add(FnSpec{Recv: "Route", Func: "AttachTo", Lean: "Route.AttachTo", UseStructs: []string{"Route", "Router"}, Mutates: true,
+		MutParams: []string{"router"}, Extra: arExtra, RetExtra: []string{"router"}, RetExtraT: []string{"Router"},
+		Exts: []Ext{{Callee: "router.AddRoute", Stmts: []string{"let %t ← Gen.Router.AddRoute router $ appendRoute newCache", "router := %t.1", "$ := %t.2"}, MayPanic: true}}})
 	// route.go: matchRegex — the compiled regexp is a parameter (what FindAllStringSubmatch answers)
 	add(FnSpec{Recv: "Route", Func: "matchRegex", Lean: "Route.matchRegex", UseStructs: []string{"Route"},
 		Extra: []string{"(findAll : Bytes → List (List Bytes))"},
